@@ -120,20 +120,33 @@ const BINS: usize = 32;
 /// chi-square critical value for 31 degrees of freedom at p = 1e-12: a correct sampler exceeds it once in 1e12 runs
 const CHI2_CRIT_31: f64 = 121.9;
 
+/// chi-square critical value for 63 degrees of freedom at p = 1e-12 (scipy: 176.71)
+const CHI2_CRIT_63: f64 = 176.8;
+
 struct Hist {
     bins: [[u64; BINS]; 3],
+    /// joint 4 x 4 x 4 cells of the three CDF coordinates: a sampler that re-uses one variate for two coordinates, or
+    /// couples them in any other way, has perfect marginals and empty joint cells
+    joint: [u64; 64],
     n: u64,
 }
 impl Hist {
     fn new() -> Hist {
-        Hist { bins: [[0; BINS]; 3], n: 0 }
+        Hist { bins: [[0; BINS]; 3], joint: [0; 64], n: 0 }
     }
     fn add(&mut self, u: [f64; 3]) {
+        let mut j = 0;
         for k in 0..3 {
             let b = ((u[k] * BINS as f64) as isize).clamp(0, BINS as isize - 1) as usize;
             self.bins[k][b] += 1;
+            j = j * 4 + ((u[k] * 4.0) as isize).clamp(0, 3) as usize;
         }
+        self.joint[j] += 1;
         self.n += 1;
+    }
+    fn chi2_joint(&self) -> f64 {
+        let e = self.n as f64 / 64.0;
+        self.joint.iter().map(|&o| (o as f64 - e) * (o as f64 - e) / e).sum()
     }
     fn chi2(&self, k: usize) -> f64 {
         let e = self.n as f64 / BINS as f64;
@@ -235,6 +248,172 @@ fn ends(shape: Shape, rng: &mut PvRng, inclusive: bool) -> ([f64; 3], [f64; 3], 
     (lo, hi, arc)
 }
 
+
+/// a degenerate "random" stream: cycles through a fixed list of 64-bit words (all zeros, all ones, alternating, the
+/// smallest non-zero variate, exactly one half). `next_u32` hands out the upper half, which is what rand's f32 uses.
+struct PatRng {
+    pat: &'static [u64],
+    i: usize,
+}
+impl rand::RngCore for PatRng {
+    fn next_u32(&mut self) -> u32 {
+        (self.next_u64() >> 32) as u32
+    }
+    fn next_u64(&mut self) -> u64 {
+        let v = self.pat[self.i % self.pat.len()];
+        self.i += 1;
+        v
+    }
+    fn fill_bytes(&mut self, dest: &mut [u8]) {
+        for chunk in dest.chunks_mut(8) {
+            let b = self.next_u64().to_le_bytes();
+            chunk.copy_from_slice(&b[..chunk.len()]);
+        }
+    }
+    fn try_fill_bytes(&mut self, dest: &mut [u8]) -> Result<(), rand::Error> {
+        self.fill_bytes(dest);
+        Ok(())
+    }
+}
+const HOSTILE: [(&str, &[u64]); 8] = [
+    ("all_zeros", &[0]),
+    ("all_ones", &[u64::MAX]),
+    ("zeros_then_ones", &[0, u64::MAX]),
+    ("ones_then_zeros", &[u64::MAX, 0]),
+    ("smallest_nonzero_variate", &[1 << 11 | 1 << 40]),
+    ("one_half", &[1 << 63]),
+    ("zero_zero_ones", &[0, 0, u64::MAX]),
+    ("ones_ones_zero", &[u64::MAX, u64::MAX, 0]),
+];
+
+/// containment of one sample between two ends, for every shape (no recorded-finding classes: callers keep bicone ends in
+/// the lower half)
+fn contained<T: Fl>(shape: Shape, a: &[f64; 3], lo: &[f64; 3], hi: &[f64; 3]) -> Option<&'static str> {
+    let tol = |x: f64| 8.0 * T::ULP * (1.0 + x.abs());
+    let h = shape.hue_index();
+    if !a.iter().all(|v| v.is_finite()) {
+        return Some("not_finite");
+    }
+    match shape {
+        Shape::HwbCone => {
+            let ((s, v), (s0, v0), (s1, v1)) = (shape.cone_coords(a), shape.cone_coords(lo), shape.cone_coords(hi));
+            let t = 64.0 * T::ULP;
+            let ts = |s_end: f64, v_end: f64| t * (1.0 + (1.0 - s_end).abs() / v_end.min(v).max(1e-300));
+            let (sa, sb) = if s0 <= s1 { ((s0, v0), (s1, v1)) } else { ((s1, v1), (s0, v0)) };
+            if !(s >= sa.0 - ts(sa.0, sa.1) && s <= sb.0 + ts(sb.0, sb.1) && v >= v0 - t && v <= v1 + t) {
+                return Some("equivalent_hsv_saturation_or_value_outside_the_ends");
+            }
+        }
+        _ => {
+            for k in 0..3 {
+                if Some(k) != h && !(a[k] >= lo[k] - tol(lo[k]) && a[k] <= hi[k] + tol(hi[k])) {
+                    return Some("component_outside_the_ends");
+                }
+            }
+        }
+    }
+    if let Some(hk) = h {
+        let arc_c = hi[hk] - lo[hk];
+        let off = (a[hk] - lo[hk]).rem_euclid(360.0);
+        let t = 64.0 * T::ULP * 360.0;
+        if !(off <= arc_c + t || off >= 360.0 - t) {
+            return Some("hue_not_on_the_arc_from_low_to_high");
+        }
+    }
+    None
+}
+
+/// the degenerate streams through the Standard distribution and through uniform samplers
+fn run_hostile<C, T>(m: &mut Monitor, inst: &str, shape: Shape, bounded: bool)
+where
+    T: Fl,
+    C: ArrayCast<Array = [T; 3]> + Copy + SampleUniform + IsWithinBounds<Mask = bool>,
+    Standard: Distribution<C>,
+{
+    let (flo, fhi) = shape.full();
+    let h = shape.hue_index();
+    // a sub-range strictly inside the shape (bicone: lower half, see the recorded finding), hue arc through 0 degrees
+    let frac = |a: f64, b: f64| -> ([f64; 3], [f64; 3]) {
+        let (mut lo, mut hi) = ([0.0; 3], [0.0; 3]);
+        for k in 0..3 {
+            lo[k] = flo[k] + (fhi[k] - flo[k]) * a;
+            hi[k] = flo[k] + (fhi[k] - flo[k]) * b;
+        }
+        if let Some(hk) = h {
+            lo[hk] = 340.0;
+            hi[hk] = 380.0;
+        }
+        if shape == Shape::HwbCone {
+            // HSV (s, v) from (a, a) to (b, b)
+            lo[1] = (1.0 - a) * a;
+            lo[2] = 1.0 - a;
+            hi[1] = (1.0 - b) * b;
+            hi[2] = 1.0 - b;
+        }
+        (lo, hi)
+    };
+    let mut ranges = vec![frac(0.125, 0.375), frac(0.0, 0.25)];
+    if !matches!(shape, Shape::Bicone { .. }) {
+        ranges.push(frac(0.5, 1.0));
+        ranges.push({
+            let (mut lo, mut hi) = shape.full();
+            if let Some(hk) = h {
+                lo[hk] = 0.0;
+                hi[hk] = 359.0;
+            }
+            (lo, hi)
+        });
+    }
+    for (pname, pat) in HOSTILE.iter() {
+        let res = std::panic::catch_unwind(std::panic::AssertUnwindSafe(|| {
+            let mut out: Vec<(String, [f64; 3], serde_json::Value)> = Vec::new();
+            let mut n = 0u64;
+            let mut rng = PatRng { pat, i: 0 };
+            for i in 0..6 {
+                let c: C = rng.gen();
+                let a = arr::<C, T>(c);
+                n += 1;
+                let mut bad = !a.iter().all(|v| v.is_finite()) || (bounded && !c.is_within_bounds());
+                if let Some(hk) = h {
+                    bad |= !(a[hk] >= 0.0 && a[hk] <= 360.0);
+                }
+                if bad {
+                    out.push(("standard_sample_outside_bounds:degenerate_stream".into(), a, json!({"stream": pname, "index": i})));
+                }
+            }
+            for (lo, hi) in ranges.iter() {
+                let (lo_c, hi_c): (C, C) = (mk::<C, T>(lo), mk::<C, T>(hi));
+                let (lo, hi) = (arr::<C, T>(lo_c), arr::<C, T>(hi_c));
+                for inclusive in [false, true] {
+                    let sampler = if inclusive { Uniform::new_inclusive(lo_c, hi_c) } else { Uniform::new(lo_c, hi_c) };
+                    let mut rng = PatRng { pat, i: 0 };
+                    for i in 0..6 {
+                        let c: C = sampler.sample(&mut rng);
+                        let a = arr::<C, T>(c);
+                        n += 1;
+                        if let Some(class) = contained::<T>(shape, &a, &lo, &hi) {
+                            out.push((format!("{}:degenerate_stream", class), a, json!({"stream": pname, "index": i, "low": fvec(&lo), "high": fvec(&hi), "inclusive": inclusive})));
+                        }
+                    }
+                }
+            }
+            (n, out)
+        }));
+        match res {
+            Ok((n, out)) => {
+                for _ in 0..n {
+                    m.eval();
+                }
+                for (class, a, input) in out {
+                    m.violate(inst, &class, input, fvec(&a), json!("finite, within bounds / between the ends"), "");
+                }
+            }
+            Err(_) => m.violate(inst, "sampling_panics:degenerate_stream", json!({"stream": pname}), json!("panic"), json!("a sample"), ""),
+        }
+        m.cell_s(&format!("{}hostile{}", inst, pname));
+    }
+}
+
 #[allow(clippy::too_many_arguments)]
 fn run_type<C, T>(ctx: &Ctx, m: &mut Monitor, u: &mut Monitor, name: &str, shape: Shape, bounded: bool)
 where
@@ -302,6 +481,12 @@ where
             if x > CHI2_CRIT_31 {
                 u.violate(&inst, &format!("standard_not_uniform_in_volume:{}", what), json!({"samples": hist.n, "bins": BINS}), json!({"chi2": x, "histogram": hist.bins[k].to_vec()}), json!({"chi2_critical_p1e-12": CHI2_CRIT_31}), "");
             }
+        }
+        let x = hist.chi2_joint();
+        u.eval();
+        u.counter_max(&format!("max:chi2_x10:{}:standard:joint_4x4x4", if is_cone { "cone" } else { "cylinder" }), (x * 10.0) as u64);
+        if x > CHI2_CRIT_63 {
+            u.violate(&inst, "standard_not_uniform_in_volume:joint_cells", json!({"samples": hist.n, "cells": 64}), json!({"chi2": x, "histogram": hist.joint.to_vec()}), json!({"chi2_critical_p1e-12": CHI2_CRIT_63}), "");
         }
         u.cell_s(&format!("{}std", inst));
     }
@@ -402,6 +587,7 @@ where
             }
         }
         if big && !matches!(shape, Shape::Cart(_)) && local.n > 1000 {
+            let mut testable = 0;
             for (k, what) in ["height_cdf", "radius_squared", "hue"].iter().enumerate() {
                 // a coordinate with equal ends carries no distribution
                 let flat = match (k, shape) {
@@ -453,12 +639,464 @@ where
                     continue;
                 }
                 // f32 ends closer than a few thousand ulps quantise the samples: no distribution test
+                testable += 1;
                 let x = local.chi2(k);
                 u.eval();
                 u.counter_max(&format!("max:chi2_x10:uniform_sampler:{}", what), (x * 10.0) as u64);
                 if x > CHI2_CRIT_31 {
                     u.violate(&inst, &format!("uniform_sampler_not_uniform_in_volume:{}", what), json!({"low": fvec(&lo), "high": fvec(&hi), "inclusive": inclusive, "samples": local.n}), json!({"chi2": x, "histogram": local.bins[k].to_vec()}), json!({"chi2_critical_p1e-12": CHI2_CRIT_31}), "");
                 }
+            }
+            if testable == 3 {
+                let x = local.chi2_joint();
+                u.eval();
+                u.counter_max("max:chi2_x10:uniform_sampler:joint_4x4x4", (x * 10.0) as u64);
+                if x > CHI2_CRIT_63 {
+                    u.violate(&inst, "uniform_sampler_not_uniform_in_volume:joint_cells", json!({"low": fvec(&lo), "high": fvec(&hi), "inclusive": inclusive, "samples": local.n}), json!({"chi2": x, "histogram": local.joint.to_vec()}), json!({"chi2_critical_p1e-12": CHI2_CRIT_63}), "");
+                }
+            }
+            u.cell_s(&format!("{}uni{}", inst, ri));
+        }
+        m.cell_s(&format!("{}uni{}{}", inst, inclusive, ri % 32));
+    }
+    run_hostile::<C, T>(m, &inst, shape, bounded);
+}
+
+// ---------------------------------------------------------------------------------------------------------------------
+// types outside the 3-float mould: luma (one component), transparent colours (colour + alpha), bare hues
+
+fn chi2_of(bins: &[u64]) -> f64 {
+    let n: u64 = bins.iter().sum();
+    let e = n as f64 / bins.len() as f64;
+    bins.iter().map(|&o| (o as f64 - e) * (o as f64 - e) / e).sum()
+}
+
+/// N independent components with nominal ranges: Standard within the ranges and uniform per component and per pair of
+/// neighbouring components (8 x 8 cells); Uniform::new / new_inclusive between seeded ends: contained, uniform.
+fn run_flat<C, T, const N: usize>(ctx: &Ctx, m: &mut Monitor, u: &mut Monitor, name: &str, bounds: [(f64, f64); N], within: impl Fn(&C) -> bool)
+where
+    T: Fl,
+    C: ArrayCast<Array = [T; N]> + Copy + SampleUniform,
+    Standard: Distribution<C>,
+{
+    let inst = format!("{}/{}", name, T::NAME);
+    let mut prng = ctx.rng(&inst, 7);
+    let tol = |x: f64| 8.0 * T::ULP * (1.0 + x.abs());
+    let get = |c: C| -> [f64; N] {
+        let a: [T; N] = cast::into_array(c);
+        let mut o = [0.0; N];
+        for k in 0..N {
+            o[k] = a[k].d();
+        }
+        o
+    };
+    let make = |x: &[f64; N]| -> C {
+        let mut a = [T::f(0.0); N];
+        for k in 0..N {
+            a[k] = T::f(x[k]);
+        }
+        cast::from_array(a)
+    };
+    let total = ctx.n(20_000, 400_000);
+    let streams = 20;
+    // ---- Standard
+    let mut marg = vec![[0u64; BINS]; N];
+    let mut pairs = vec![[0u64; 64]; N.saturating_sub(1)];
+    for sidx in 0..streams {
+        let seed = pvmon::rng::mix(ctx.seed, pvmon::rng::mix(pvmon::rng::hash_str(&inst), 500 + sidx));
+        let mut r1 = rand::rngs::StdRng::seed_from_u64(seed);
+        let mut r2 = rand_mt::Mt64::new(seed);
+        for i in 0..total / streams {
+            let c: C = if i % 2 == 0 { r1.gen() } else { r2.gen() };
+            let a = get(c);
+            m.eval();
+            let mut bad = !within(&c);
+            let mut cell = [0usize; N];
+            for k in 0..N {
+                if !(a[k] >= bounds[k].0 - tol(bounds[k].0) && a[k] <= bounds[k].1 + tol(bounds[k].1)) {
+                    bad = true;
+                }
+                let x = (a[k] - bounds[k].0) / (bounds[k].1 - bounds[k].0);
+                marg[k][((x * BINS as f64) as isize).clamp(0, BINS as isize - 1) as usize] += 1;
+                cell[k] = ((x * 8.0) as isize).clamp(0, 7) as usize;
+            }
+            for k in 0..N.saturating_sub(1) {
+                pairs[k][cell[k] * 8 + cell[k + 1]] += 1;
+            }
+            if bad {
+                m.violate(&inst, "standard_sample_outside_bounds", json!({"stream_seed": seed, "index": i}), fvec(&a), json!({"bounds": bounds.iter().map(|b| vec![b.0, b.1]).collect::<Vec<_>>()}), "");
+            }
+        }
+        m.cell_s(&format!("{}std{}", inst, sidx % 16));
+    }
+    for k in 0..N {
+        let x = chi2_of(&marg[k]);
+        u.eval();
+        u.counter_max("max:chi2_x10:flat:standard:component", (x * 10.0) as u64);
+        if x > CHI2_CRIT_31 {
+            u.violate(&inst, &format!("standard_component_not_uniform:{}", k), json!({"samples": total}), json!({"chi2": x, "histogram": marg[k].to_vec()}), json!({"chi2_critical_p1e-12": CHI2_CRIT_31}), "");
+        }
+    }
+    for k in 0..N.saturating_sub(1) {
+        let x = chi2_of(&pairs[k]);
+        u.eval();
+        u.counter_max("max:chi2_x10:flat:standard:pair_8x8", (x * 10.0) as u64);
+        if x > CHI2_CRIT_63 {
+            u.violate(&inst, &format!("standard_components_not_independent:{}_{}", k, k + 1), json!({"samples": total}), json!({"chi2": x, "histogram": pairs[k].to_vec()}), json!({"chi2_critical_p1e-12": CHI2_CRIT_63}), "");
+        }
+    }
+    u.cell_s(&format!("{}flatstd", inst));
+    // ---- Uniform between two ends
+    let ranges = ctx.n(60, 2_000);
+    for ri in 0..ranges {
+        let inclusive = ri % 2 == 1;
+        let mut lo = [0.0; N];
+        let mut hi = [0.0; N];
+        for k in 0..N {
+            let (a, b) = bounds[k];
+            let (x, y) = match prng.below(6) {
+                0 => (a, b),
+                1 if inclusive => {
+                    let x = a + (b - a) * prng.unit();
+                    (x, x)
+                }
+                2 => (a, a + (b - a) * prng.unit().max(1e-3)),
+                _ => {
+                    let (x, y) = (prng.unit(), prng.unit());
+                    let (x, y) = if x <= y { (x, y) } else { (y, x) };
+                    let y = if y - x < 1e-3 { (x + 1e-3).min(1.0) } else { y };
+                    let x = if y - x < 1e-3 { y - 1e-3 } else { x };
+                    (a + (b - a) * x, a + (b - a) * y)
+                }
+            };
+            lo[k] = x;
+            hi[k] = y;
+        }
+        let (lo_c, hi_c) = (make(&lo), make(&hi));
+        let (lo, hi) = (get(lo_c), get(hi_c));
+        if !inclusive && (0..N).any(|k| !(lo[k] < hi[k])) {
+            continue;
+        }
+        let sampler = match std::panic::catch_unwind(std::panic::AssertUnwindSafe(|| if inclusive { Uniform::new_inclusive(lo_c, hi_c) } else { Uniform::new(lo_c, hi_c) })) {
+            Ok(s) => s,
+            Err(_) => {
+                m.violate(&inst, "uniform_sampler_construction_panics", json!({"low": fvec(&lo), "high": fvec(&hi), "inclusive": inclusive}), json!("panic"), json!("a sampler"), "");
+                continue;
+            }
+        };
+        let seed = pvmon::rng::mix(ctx.seed, pvmon::rng::mix(pvmon::rng::hash_str(&inst), 9000 + ri));
+        let mut r1 = rand::rngs::StdRng::seed_from_u64(seed);
+        let big = ri < 2;
+        let mut marg = vec![[0u64; BINS]; N];
+        let mut pairs = vec![[0u64; 64]; N.saturating_sub(1)];
+        let cnt = if big { total } else { 50 };
+        for i in 0..cnt {
+            let c: C = sampler.sample(&mut r1);
+            let a = get(c);
+            m.eval();
+            let mut cell = [0usize; N];
+            let mut bad = false;
+            for k in 0..N {
+                if !(a[k] >= lo[k] - tol(lo[k]) && a[k] <= hi[k] + tol(hi[k])) || !a[k].is_finite() {
+                    bad = true;
+                }
+                let x = if hi[k] > lo[k] { (a[k] - lo[k]) / (hi[k] - lo[k]) } else { 0.5 };
+                marg[k][((x * BINS as f64) as isize).clamp(0, BINS as isize - 1) as usize] += 1;
+                cell[k] = ((x * 8.0) as isize).clamp(0, 7) as usize;
+            }
+            for k in 0..N.saturating_sub(1) {
+                pairs[k][cell[k] * 8 + cell[k + 1]] += 1;
+            }
+            if bad {
+                m.violate(&inst, "component_outside_the_ends", json!({"low": fvec(&lo), "high": fvec(&hi), "inclusive": inclusive, "stream_seed": seed, "index": i}), fvec(&a), json!("every component between the ends"), "");
+                break;
+            }
+        }
+        if big {
+            let wide = |k: usize| (hi[k] - lo[k]) / (bounds[k].1 - bounds[k].0) >= 3e5 * T::ULP;
+            for k in 0..N {
+                if !wide(k) {
+                    continue;
+                }
+                let x = chi2_of(&marg[k]);
+                u.eval();
+                u.counter_max("max:chi2_x10:flat:uniform_sampler:component", (x * 10.0) as u64);
+                if x > CHI2_CRIT_31 {
+                    u.violate(&inst, &format!("uniform_sampler_component_not_uniform:{}", k), json!({"low": fvec(&lo), "high": fvec(&hi), "inclusive": inclusive, "samples": cnt}), json!({"chi2": x, "histogram": marg[k].to_vec()}), json!({"chi2_critical_p1e-12": CHI2_CRIT_31}), "");
+                }
+            }
+            for k in 0..N.saturating_sub(1) {
+                if !(wide(k) && wide(k + 1)) {
+                    continue;
+                }
+                let x = chi2_of(&pairs[k]);
+                u.eval();
+                u.counter_max("max:chi2_x10:flat:uniform_sampler:pair_8x8", (x * 10.0) as u64);
+                if x > CHI2_CRIT_63 {
+                    u.violate(&inst, &format!("uniform_sampler_components_not_independent:{}_{}", k, k + 1), json!({"low": fvec(&lo), "high": fvec(&hi), "inclusive": inclusive, "samples": cnt}), json!({"chi2": x, "histogram": pairs[k].to_vec()}), json!({"chi2_critical_p1e-12": CHI2_CRIT_63}), "");
+                }
+            }
+            u.cell_s(&format!("{}flatuni{}", inst, ri));
+        }
+        m.cell_s(&format!("{}uni{}{}", inst, inclusive, ri % 32));
+    }
+    // ---- degenerate streams
+    for (pname, pat) in HOSTILE.iter() {
+        let res = std::panic::catch_unwind(std::panic::AssertUnwindSafe(|| {
+            let mut bad: Vec<(String, Vec<f64>)> = Vec::new();
+            let mut rng = PatRng { pat, i: 0 };
+            for _ in 0..6 {
+                let c: C = rng.gen();
+                let a = get(c);
+                if !within(&c) || (0..N).any(|k| !(a[k] >= bounds[k].0 - tol(bounds[k].0) && a[k] <= bounds[k].1 + tol(bounds[k].1))) {
+                    bad.push(("standard_sample_outside_bounds:degenerate_stream".into(), a.to_vec()));
+                }
+            }
+            let mut lo = [0.0; N];
+            let mut hi = [0.0; N];
+            for k in 0..N {
+                lo[k] = bounds[k].0 + (bounds[k].1 - bounds[k].0) * 0.25;
+                hi[k] = bounds[k].0 + (bounds[k].1 - bounds[k].0) * 0.75;
+            }
+            let (lo_c, hi_c) = (make(&lo), make(&hi));
+            for inclusive in [false, true] {
+                let sampler = if inclusive { Uniform::new_inclusive(lo_c, hi_c) } else { Uniform::new(lo_c, hi_c) };
+                let mut rng = PatRng { pat, i: 0 };
+                for _ in 0..6 {
+                    let a = get(sampler.sample(&mut rng));
+                    if (0..N).any(|k| !(a[k] >= lo[k] - tol(lo[k]) && a[k] <= hi[k] + tol(hi[k]))) {
+                        bad.push(("component_outside_the_ends:degenerate_stream".into(), a.to_vec()));
+                    }
+                }
+            }
+            bad
+        }));
+        for _ in 0..18 {
+            m.eval();
+        }
+        match res {
+            Ok(bad) => {
+                for (class, a) in bad {
+                    m.violate(&inst, &class, json!({"stream": pname}), fvec(&a), json!("within bounds / between the ends"), "");
+                }
+            }
+            Err(_) => m.violate(&inst, "sampling_panics:degenerate_stream", json!({"stream": pname}), json!("panic"), json!("a sample"), ""),
+        }
+        m.cell_s(&format!("{}hostile{}", inst, pname));
+    }
+}
+
+/// a transparent colour whose colour part has one of the shaped samplers: the colour part obeys the shape's contract, the
+/// alpha lies between the alphas of the ends, is uniform, and is independent of the colour's height coordinate
+fn run_alpha_shape<C, T>(ctx: &Ctx, m: &mut Monitor, u: &mut Monitor, name: &str, shape: Shape)
+where
+    T: Fl,
+    C: ArrayCast<Array = [T; 3]> + Copy + SampleUniform + IsWithinBounds<Mask = bool>,
+    Standard: Distribution<C> + Distribution<T>,
+{
+    use palette::Alpha;
+    let inst = format!("Alpha<{}>/{}", name, T::NAME);
+    let mut prng = ctx.rng(&inst, 11);
+    let (flo, fhi) = shape.full();
+    let total = ctx.n(20_000, 300_000);
+    // ---- Standard
+    let seed = pvmon::rng::mix(ctx.seed, pvmon::rng::hash_str(&inst));
+    let mut r1 = rand::rngs::StdRng::seed_from_u64(seed);
+    let mut marg = [0u64; BINS];
+    let mut joint = [0u64; 64];
+    for i in 0..total {
+        let c: Alpha<C, T> = r1.gen();
+        let (a, al) = (arr::<C, T>(c.color), c.alpha.d());
+        m.eval();
+        if !c.color.is_within_bounds() || !(al >= 0.0 && al <= 1.0) || !a.iter().all(|v| v.is_finite()) {
+            m.violate(&inst, "standard_sample_outside_bounds", json!({"stream_seed": seed, "index": i}), json!({"color": fvec(&a), "alpha": al}), json!("colour within bounds, alpha in [0, 1]"), "");
+        }
+        let (u1, _) = shape.volume_uniforms(&a, &flo, &fhi);
+        marg[((al * BINS as f64) as isize).clamp(0, BINS as isize - 1) as usize] += 1;
+        joint[((al * 8.0) as isize).clamp(0, 7) as usize * 8 + ((u1 * 8.0) as isize).clamp(0, 7) as usize] += 1;
+    }
+    for (x, crit, class) in [(chi2_of(&marg), CHI2_CRIT_31, "standard_alpha_not_uniform"), (chi2_of(&joint), CHI2_CRIT_63, "standard_alpha_not_independent_of_colour")] {
+        u.eval();
+        u.counter_max(&format!("max:chi2_x10:alpha:{}", class), (x * 10.0) as u64);
+        if x > crit {
+            u.violate(&inst, class, json!({"samples": total}), json!({"chi2": x}), json!({"chi2_critical_p1e-12": crit}), "");
+        }
+    }
+    u.cell_s(&format!("{}std", inst));
+    m.cell_s(&format!("{}std", inst));
+    // ---- Uniform
+    let ranges = ctx.n(60, 2_000);
+    for ri in 0..ranges {
+        let inclusive = ri % 2 == 1;
+        let (mut lo, mut hi, _arc) = ends(shape, &mut prng, inclusive);
+        if let Shape::Bicone { unit } = shape {
+            // lower half only (recorded finding about the upper half of the bicone samplers)
+            lo[2] *= 0.5;
+            hi[2] *= 0.5;
+            let _ = unit;
+        }
+        let (a0, a1) = {
+            let (x, y) = (prng.unit(), prng.unit());
+            let (x, y) = if x <= y { (x, y) } else { (y, x) };
+            match prng.below(4) {
+                0 => (0.0, 1.0),
+                1 if inclusive => (x, x),
+                _ => (x, if y - x < 1e-3 { (x + 1e-3).min(1.0) } else { y }),
+            }
+        };
+        let (lo_c, hi_c): (C, C) = (mk::<C, T>(&lo), mk::<C, T>(&hi));
+        let (lo, hi) = (arr::<C, T>(lo_c), arr::<C, T>(hi_c));
+        let (a0t, a1t) = (T::f(a0), T::f(a1));
+        let (a0, a1) = (a0t.d(), a1t.d());
+        if !inclusive {
+            let degenerate = match shape {
+                Shape::HwbCone => {
+                    let ((s0, v0), (s1, v1)) = (shape.cone_coords(&lo), shape.cone_coords(&hi));
+                    !(s0 < s1 && v0 < v1)
+                }
+                _ => (0..3).any(|k| !(lo[k] < hi[k])),
+            } || !(a0 < a1);
+            if degenerate {
+                continue;
+            }
+        }
+        let (lo_a, hi_a) = (Alpha { color: lo_c, alpha: a0t }, Alpha { color: hi_c, alpha: a1t });
+        let sampler = match std::panic::catch_unwind(std::panic::AssertUnwindSafe(|| if inclusive { Uniform::new_inclusive(lo_a, hi_a) } else { Uniform::new(lo_a, hi_a) })) {
+            Ok(s) => s,
+            Err(_) => {
+                m.violate(&inst, "uniform_sampler_construction_panics", json!({"low": fvec(&lo), "high": fvec(&hi), "alpha": [a0, a1], "inclusive": inclusive}), json!("panic"), json!("a sampler"), "");
+                continue;
+            }
+        };
+        let seed = pvmon::rng::mix(ctx.seed, pvmon::rng::mix(pvmon::rng::hash_str(&inst), 1000 + ri));
+        let mut r1 = rand::rngs::StdRng::seed_from_u64(seed);
+        let big = ri < 2 && a1 - a0 >= 3e5 * T::ULP;
+        let mut marg = [0u64; BINS];
+        let cnt = if big { total } else { 50 };
+        for i in 0..cnt {
+            let c: Alpha<C, T> = sampler.sample(&mut r1);
+            let (a, al) = (arr::<C, T>(c.color), c.alpha.d());
+            m.eval();
+            let t = 8.0 * T::ULP;
+            let class = contained::<T>(shape, &a, &lo, &hi).or(if !(al >= a0 - t && al <= a1 + t) { Some("alpha_outside_the_ends") } else { None });
+            if let Some(class) = class {
+                m.violate(&inst, class, json!({"low": fvec(&lo), "high": fvec(&hi), "alpha": [a0, a1], "inclusive": inclusive, "stream_seed": seed, "index": i}), json!({"color": fvec(&a), "alpha": al}), json!("colour between the ends, alpha between the alphas of the ends"), "");
+                break;
+            }
+            let x = if a1 > a0 { (al - a0) / (a1 - a0) } else { 0.5 };
+            marg[((x * BINS as f64) as isize).clamp(0, BINS as isize - 1) as usize] += 1;
+        }
+        if big {
+            let x = chi2_of(&marg);
+            u.eval();
+            u.counter_max("max:chi2_x10:alpha:uniform_sampler_alpha", (x * 10.0) as u64);
+            if x > CHI2_CRIT_31 {
+                u.violate(&inst, "uniform_sampler_alpha_not_uniform", json!({"alpha": [a0, a1], "samples": cnt}), json!({"chi2": x, "histogram": marg.to_vec()}), json!({"chi2_critical_p1e-12": CHI2_CRIT_31}), "");
+            }
+            u.cell_s(&format!("{}uni{}", inst, ri));
+        }
+        m.cell_s(&format!("{}uni{}{}", inst, inclusive, ri % 32));
+    }
+}
+
+/// the five hue types as samplable values of their own
+trait HueT<T>: Copy + SampleUniform {
+    fn from_deg(x: T) -> Self;
+    fn pos(self) -> T;
+}
+macro_rules! hue_t {
+    ($($h:ident),*) => {$(
+        impl HueT<f32> for palette::$h<f32> { fn from_deg(x: f32) -> Self { palette::$h::from_degrees(x) } fn pos(self) -> f32 { self.into_positive_degrees() } }
+        impl HueT<f64> for palette::$h<f64> { fn from_deg(x: f64) -> Self { palette::$h::from_degrees(x) } fn pos(self) -> f64 { self.into_positive_degrees() } }
+    )*};
+}
+hue_t!(RgbHue, LabHue, LuvHue, OklabHue);
+impl HueT<f32> for palette::hues::Cam16Hue<f32> { fn from_deg(x: f32) -> Self { palette::hues::Cam16Hue::from_degrees(x) } fn pos(self) -> f32 { self.into_positive_degrees() } }
+impl HueT<f64> for palette::hues::Cam16Hue<f64> { fn from_deg(x: f64) -> Self { palette::hues::Cam16Hue::from_degrees(x) } fn pos(self) -> f64 { self.into_positive_degrees() } }
+
+fn run_hue<H, T>(ctx: &Ctx, m: &mut Monitor, u: &mut Monitor, name: &str)
+where
+    T: Fl,
+    H: HueT<T>,
+    Standard: Distribution<H>,
+{
+    let inst = format!("{}/{}", name, T::NAME);
+    let mut prng = ctx.rng(&inst, 13);
+    let total = ctx.n(20_000, 300_000);
+    let seed = pvmon::rng::mix(ctx.seed, pvmon::rng::hash_str(&inst));
+    let mut r1 = rand::rngs::StdRng::seed_from_u64(seed);
+    let mut marg = [0u64; BINS];
+    for i in 0..total {
+        let hsample: H = r1.gen();
+        let x = hsample.pos().d();
+        m.eval();
+        if !(x >= 0.0 && x <= 360.0) {
+            m.violate(&inst, "standard_sample_outside_bounds", json!({"stream_seed": seed, "index": i}), json!(x), json!("an angle in [0, 360]"), "");
+        }
+        marg[((x / 360.0 * BINS as f64) as isize).clamp(0, BINS as isize - 1) as usize] += 1;
+    }
+    let x = chi2_of(&marg);
+    u.eval();
+    u.counter_max("max:chi2_x10:hue:standard", (x * 10.0) as u64);
+    if x > CHI2_CRIT_31 {
+        u.violate(&inst, "standard_hue_not_uniform", json!({"samples": total}), json!({"chi2": x, "histogram": marg.to_vec()}), json!({"chi2_critical_p1e-12": CHI2_CRIT_31}), "");
+    }
+    u.cell_s(&format!("{}std", inst));
+    m.cell_s(&format!("{}std", inst));
+    let ranges = ctx.n(100, 3_000);
+    for ri in 0..ranges {
+        let inclusive = ri % 2 == 1;
+        let l = match prng.below(6) {
+            0 => 0.0,
+            1 => 350.0,
+            2 => -10.0,
+            3 => prng.range(300.0, 360.0),
+            _ => prng.range(-360.0, 720.0),
+        };
+        let arc = match prng.below(6) {
+            0 => prng.range(0.01, 1.0),
+            1 => prng.range(300.0, 359.0),
+            2 => 180.0,
+            3 if inclusive => 0.0,
+            _ => prng.range(1.0, 359.0),
+        };
+        let (lo_t, hi_t) = (T::f(l), T::f(l + arc));
+        let (lo, hi) = (lo_t.d(), hi_t.d());
+        if !inclusive && !(lo < hi) {
+            continue;
+        }
+        let (lo_h, hi_h) = (H::from_deg(lo_t), H::from_deg(hi_t));
+        let sampler = match std::panic::catch_unwind(std::panic::AssertUnwindSafe(|| if inclusive { Uniform::new_inclusive(lo_h, hi_h) } else { Uniform::new(lo_h, hi_h) })) {
+            Ok(s) => s,
+            Err(_) => {
+                m.violate(&inst, "uniform_sampler_construction_panics", json!({"low": lo, "high": hi, "inclusive": inclusive}), json!("panic"), json!("a sampler"), "");
+                continue;
+            }
+        };
+        let seed = pvmon::rng::mix(ctx.seed, pvmon::rng::mix(pvmon::rng::hash_str(&inst), 1000 + ri));
+        let mut r1 = rand::rngs::StdRng::seed_from_u64(seed);
+        let big = ri < 4 && (hi - lo) / 360.0 >= 3e5 * T::ULP;
+        let cnt = if big { total } else { 50 };
+        let mut marg = [0u64; BINS];
+        let t = 64.0 * T::ULP * 360.0;
+        for i in 0..cnt {
+            let hsample: H = sampler.sample(&mut r1);
+            let x = hsample.pos().d();
+            m.eval();
+            let off = (x - lo).rem_euclid(360.0);
+            if !(off <= hi - lo + t || off >= 360.0 - t) || !x.is_finite() {
+                m.violate(&inst, "hue_not_on_the_arc_from_low_to_high", json!({"low": lo, "high": hi, "inclusive": inclusive, "stream_seed": seed, "index": i}), json!(x), json!("on the arc"), "");
+                break;
+            }
+            let uu = if hi > lo { (if off >= 360.0 - t { 0.0 } else { off }) / (hi - lo) } else { 0.5 };
+            marg[((uu * BINS as f64) as isize).clamp(0, BINS as isize - 1) as usize] += 1;
+        }
+        if big {
+            let x = chi2_of(&marg);
+            u.eval();
+            u.counter_max("max:chi2_x10:hue:uniform_sampler", (x * 10.0) as u64);
+            if x > CHI2_CRIT_31 {
+                u.violate(&inst, "uniform_sampler_hue_not_uniform_on_the_arc", json!({"low": lo, "high": hi, "samples": cnt}), json!({"chi2": x, "histogram": marg.to_vec()}), json!({"chi2_critical_p1e-12": CHI2_CRIT_31}), "");
             }
             u.cell_s(&format!("{}uni{}", inst, ri));
         }
@@ -510,6 +1148,54 @@ fn main() {
             ty!(19, "Lab<D50>", Lab<D50, f64>, Lab<D50, f32>, Shape::Cart([(0.0, 100.0), (-128.0, 127.0), (-128.0, 127.0)]), true);
             ty!(20, "Lch<D50>", Lch<D50, f64>, Lch<D50, f32>, Shape::Cyl { h: 2, z: 0, r: 1, zmax: 100.0, rmax: 128.0 }, true);
             ty!(21, "Yxy<D50>", Yxy<D50, f64>, Yxy<D50, f32>, Shape::Cart(unit), true);
+            // further 3-component types with samplers
+            use palette::cam16::{Cam16UcsJab, Cam16UcsJmh};
+            use palette::lms::VonKriesLms;
+            ty!(22, "Lms<VonKries,D65>", VonKriesLms<D65, f64>, VonKriesLms<D65, f32>, Shape::Cart(unit), true);
+            ty!(23, "Cam16UcsJab", Cam16UcsJab<f64>, Cam16UcsJab<f32>, Shape::Cart([(0.0, 100.0), (-50.0, 50.0), (-50.0, 50.0)]), true);
+            ty!(24, "Cam16UcsJmh", Cam16UcsJmh<f64>, Cam16UcsJmh<f32>, Shape::Cyl { h: 2, z: 0, r: 1, zmax: 100.0, rmax: 50.0 }, true);
+            // one and four components, transparent shaped colours, bare hues
+            macro_rules! flat {
+                ($i:expr, $name:expr, $C64:ty, $C32:ty, $n:expr, $b:expr) => {
+                    if $i % 4 == t {
+                        run_flat::<$C64, f64, $n>(&ctx, &mut m, &mut u, $name, $b, |c| c.is_within_bounds());
+                        run_flat::<$C32, f32, $n>(&ctx, &mut m, &mut u, $name, $b, |c| c.is_within_bounds());
+                    }
+                };
+            }
+            flat!(25, "Luma<Srgb>", palette::SrgbLuma<f64>, palette::SrgbLuma<f32>, 1, [(0.0, 1.0)]);
+            flat!(26, "LinLuma<D50>", palette::luma::Luma<encoding::Linear<D50>, f64>, palette::luma::Luma<encoding::Linear<D50>, f32>, 1, [(0.0, 1.0)]);
+            flat!(27, "Alpha<Srgb>", palette::Srgba<f64>, palette::Srgba<f32>, 4, [(0.0, 1.0); 4]);
+            flat!(28, "Alpha<Lab<D65>>", palette::Laba<D65, f64>, palette::Laba<D65, f32>, 4, [(0.0, 100.0), (-128.0, 127.0), (-128.0, 127.0), (0.0, 1.0)]);
+            flat!(29, "Alpha<Luma<Srgb>>", palette::SrgbLumaa<f64>, palette::SrgbLumaa<f32>, 2, [(0.0, 1.0); 2]);
+            macro_rules! alpha_shape {
+                ($i:expr, $name:expr, $C64:ty, $C32:ty, $shape:expr) => {
+                    if $i % 4 == t {
+                        run_alpha_shape::<$C64, f64>(&ctx, &mut m, &mut u, $name, $shape);
+                        run_alpha_shape::<$C32, f32>(&ctx, &mut m, &mut u, $name, $shape);
+                    }
+                };
+            }
+            alpha_shape!(30, "Hsv", Hsv<encoding::Srgb, f64>, Hsv<encoding::Srgb, f32>, Shape::Cone);
+            alpha_shape!(31, "Hsl", Hsl<encoding::Srgb, f64>, Hsl<encoding::Srgb, f32>, Shape::Bicone { unit: 1.0 });
+            alpha_shape!(32, "Hwb", Hwb<encoding::Srgb, f64>, Hwb<encoding::Srgb, f32>, Shape::HwbCone);
+            alpha_shape!(33, "Lch<D65>", Lch<D65, f64>, Lch<D65, f32>, Shape::Cyl { h: 2, z: 0, r: 1, zmax: 100.0, rmax: 128.0 });
+            alpha_shape!(34, "Okhsv", Okhsv<f64>, Okhsv<f32>, Shape::Cone);
+            macro_rules! hue {
+                ($i:expr, $name:expr, $H:ident) => {
+                    if $i % 4 == t {
+                        run_hue::<$H<f64>, f64>(&ctx, &mut m, &mut u, $name);
+                        run_hue::<$H<f32>, f32>(&ctx, &mut m, &mut u, $name);
+                    }
+                };
+            }
+            use palette::hues::Cam16Hue;
+            use palette::{LabHue, LuvHue, OklabHue, RgbHue};
+            hue!(35, "RgbHue", RgbHue);
+            hue!(36, "LabHue", LabHue);
+            hue!(37, "LuvHue", LuvHue);
+            hue!(38, "OklabHue", OklabHue);
+            hue!(39, "Cam16Hue", Cam16Hue);
             vec![m, u]
         });
         for mut m in res {
